@@ -241,6 +241,13 @@ class EvaluateCubicBSpline:
             b = K.call(evaluate_cubic_bspline, c, stride=s, shape=shape, transpose=True)
             if K.ensure_returns(a) and K.ensure_returns(b):
                 K.ensure_eq("agree", b, a, text=Q14E + " [transpose=True equals transpose=False on the cropped range]")
+            # the same with caller-supplied per-axis kernels in (x, ...) order, as the free-form deformation models pass them
+            from deepali.core.kernels import cubic_bspline1d
+
+            ks = [cubic_bspline1d(st) for st in s]
+            bk = K.call(evaluate_cubic_bspline, c, stride=s, shape=shape, kernel=ks, transpose=True)
+            if K.ensure_returns(a) and K.ensure_returns(bk):
+                K.ensure_eq("agree-kernels", bk, a, text=Q14E + " [transpose=True with explicit per-axis kernels equals transpose=False]")
             return
         D, n, s, d, shape, N, C = EVAL_CASES[case["case"]]
         ec = K.reals("c", (N, C) + n)
